@@ -32,6 +32,12 @@ Lemma tables_complete : calls_complete && access_complete && new_complete = true
 Proof. vm_compute. reflexivity. Qed.
 Lemma no_outside_lockers : outside_ok = true.
 Proof. vm_compute. reflexivity. Qed.
+Lemma node_identity : node_identity_ok = true.
+Proof. vm_compute. reflexivity. Qed.
+Lemma refs_ok : forall st, In st sites -> ref_ok st = true.
+Proof. apply all_sites. vm_compute. reflexivity. Qed.
+Lemma weak_refs_nonvacuous : weak_refs_seen = true.
+Proof. vm_compute. reflexivity. Qed.
 
 (** the table is not vacuous: it contains the sites the properties talk about *)
 Definition count (f : site -> bool) := length (filter f sites).
@@ -176,7 +182,7 @@ Definition call_plan (c : ccall) : list (act clock ccall) := bracket (c_guard c)
 Theorem site_calls_provide : forall st, In st sites -> forall rho c, site_call rho st = Some c -> cprovides c.
 Proof.
   intros st Hin rho c Hc. pose proof (classes_ok st Hin) as K. unfold call_ok, eheld, carries in K. unfold site_call in Hc.
-  destruct (s_kind st) as [| m recv entry | | | | |] eqn:EK; try discriminate. inversion Hc; subst c; clear Hc.
+  destruct (s_kind st) as [| m recv entry | | | | | |] eqn:EK; try discriminate. inversion Hc; subst c; clear Hc.
   unfold cprovides; cbn. destruct (class_of m); auto.
   - apply andb_true_iff in K. destruct K as [K1 K2]. apply has_In in K1. destruct K1 as [w K1]. split.
     + exists w. apply (vh_in rho _ _ _ K1).
